@@ -29,7 +29,7 @@ RULE = ("one PRNG; 45 % fold cases: conditions built from + - * (n-ary), unary -
         "($p, #p, @p, !p, at, in, N of, of..in, for..of, loops with invariants, rule references, filesize/header conjuncts), buffers of 8, 19-64 and 4096+ bytes, "
         "x condition_optimization on/off x fast_scan on/off x Teddy on/off. Non-trivial: every case (distinct by source text / operands).")
 
-KNOWN_DUMP_CLASSES = {"beyond-2^53", "i64-overflow"}
+KNOWN_DUMP_CLASSES = {"beyond-2^53", "i64-overflow"}   # classes of the repaired finding 10: a difference is a regression
 
 
 def classify(case):
@@ -218,18 +218,19 @@ def replay(d, drv):
 
 
 MANIFEST = {
-    "level_text": ("Machine-checked proofs (Coq) over executable models of the optimisations as coded: constant folding (fold_arithmetic's trip "
-                   "through f64 modelled exactly in Z; soundness REFUTED by two witnesses, proved under the 2^53 guard and for checked-i64 folding, "
-                   "the variant in force selected by a flag regenerated from the source), boolean folding, FilesizeBounds merge = intersection, "
+    "level_text": ("Machine-checked proofs (Coq) over executable models of the optimisations as coded: constant folding (both variants modelled: "
+                   "checked-i64 folding, proved sound without guard and selected today by a flag regenerated from the source; the former trip "
+                   "through f64, modelled exactly in Z, refuted by two witnesses and proved under the 2^53 guard), boolean folding, FilesizeBounds merge = intersection, "
                    "bounds and header constraints implied by the condition (operator arms, merge comparisons and the byte extraction table "
                    "regenerated from the source), pruning preserves verdicts and reported matches, fast-scan subset/first-match and verdict "
-                   "preservation (REFUTED for anchored `of` expressions on the current tree, proved under the guard; flag regenerated), Teddy's "
+                   "preservation (proved without guard now that anchored `of` expressions clear the fast-scan bit - flag regenerated; refuted for the former analysis), Teddy's "
                    "candidate filter complete hence equal to naive search. The models are compared with the implementation on generated "
                    "conditions, rule sets and buffers across condition_optimization, fast_scan and Teddy on/off in one build, and across cargo "
                    "feature sets (no optimisation features, pulley, no exact-atoms, no fast-regexp) in the thorough tier."),
-    "level_note": ("Trusted: Coq kernel, translators gen_fold/gen_bounds/gen_fastscan, harness, hook verif_c03. Known findings on the unchanged tree: "
-                   "folding through f64 (beyond 2^53, i64 overflow), fast scan changing verdicts of `N of (..) in (..)`, fast scan keeping a match "
-                   "that is not the lowest one. Exact-atoms, FastVM/PikeVM, pulley and hoisting have no model: differential only. SIMD kernels not modelled."),
+    "level_note": ("Trusted: Coq kernel, translators gen_fold/gen_bounds/gen_fastscan, harness, hook verif_c03. Repaired after this check found them: "
+                   "folding through f64 (8b83ae6a), fast scan changing verdicts of `N of (..) in (..)` (2deda6b6); their reproductions stay in the corpus. "
+                   "Known finding: fast scan keeps the first match it verifies, which is not always the lowest one. "
+                   "Exact-atoms, FastVM/PikeVM, pulley and hoisting have no model: differential only. SIMD kernels not modelled."),
     "technique": "Coq proofs over source-generated models of each optimisation + differential scans across run-time toggles and cargo feature sets",
     "design_ref": "DESIGN.md section 4, C03",
 }
